@@ -125,13 +125,55 @@ def error_excerpt(out, n=40):
     return "\n".join(lines[idx[0]: idx[0] + n])
 
 
+JUDGE_CHUNK = int(os.environ.get("VERIF_JUDGE_CHUNK", "6000"))
+
+
 def judge(workdir, trace_file, prop, workers=4, timeout=1800, tag=""):
     """evaluate property `prop` on every record of trace_file with TLC (TraceProps.tla);
-    returns (list of {id, w}, stats, seconds)"""
+    returns (list of {id, w}, stats, seconds).  Large files are judged in chunks (one TLC run each, two at a
+    time): TLC reads the whole file into memory, and C13 records carry three runs each."""
+    n = sum(1 for _ in open(trace_file))
+    if n <= JUDGE_CHUNK:
+        return _judge_one(workdir, trace_file, prop, workers, timeout, tag)
+    parts = []
+    out = None
+    with open(trace_file) as f:
+        for i, line in enumerate(f):
+            if i % JUDGE_CHUNK == 0:
+                if out:
+                    out.close()
+                parts.append(f"{trace_file}.part{len(parts)}")
+                out = open(parts[-1], "w")
+            out.write(line)
+    out.close()
+    from concurrent.futures import ThreadPoolExecutor
+    t0 = time.time()
+    _copy_specs(workdir)
+    try:
+        with ThreadPoolExecutor(max_workers=2) as ex:
+            res = list(ex.map(lambda a: _judge_one(workdir, a[1], prop, max(1, workers // 2), timeout, f"{tag}_p{a[0]}", copy=False),
+                              enumerate(parts)))
+    finally:
+        for q in parts:
+            try:
+                os.remove(q)
+            except OSError:
+                pass
+    viol = [v for r in res for v in r[0]]
+    st = tuple(sum(r[1][k] for r in res) for k in range(2)) + (max(r[1][2] for r in res),) if all(r[1] for r in res) else None
+    return viol, st, time.time() - t0
+
+
+def _copy_specs(workdir):
     os.makedirs(workdir, exist_ok=True)
     for f in os.listdir(SPEC_DIR):
         if f.endswith(".tla") or f.endswith(".cfg"):
             shutil.copy(os.path.join(SPEC_DIR, f), os.path.join(workdir, f))
+
+
+def _judge_one(workdir, trace_file, prop, workers=4, timeout=1800, tag="", copy=True):
+    if copy:
+        _copy_specs(workdir)
     name = "TraceProps"
     env = dict(os.environ)
     env["JAVA_TOOL_OPTIONS"] = "-Xss1g -XX:ParallelGCThreads=2"
